@@ -22,6 +22,7 @@ type c12proc struct {
 	conc    *plan.Conc
 	stagger bool
 	shared  []byte // data of the shared scripted source (nil: default source)
+	failing bool   // the shared source fails every read: all goroutines take the error path of NewMnemonic together
 	langs   []int
 }
 
@@ -165,6 +166,11 @@ func (e *Env) buildConcPlan(id int) *c12proc {
 		sharedData = r.Bytes(3*sharedNeed + 64) // more than needed: a consumer may request more than it uses
 		p.shared = sharedData
 		p.conc.Shared = &plan.Src{Data: hx(sharedData)}
+		if id%12 == 7 || id%12 == 1 {
+			// the error path under concurrency: a shared error value, a lazily built message
+			p.failing = true
+			p.conc.Shared.Steps = []plan.Step{{N: 0, E: "custom"}}
+		}
 	}
 	return p
 }
@@ -438,6 +444,13 @@ func checkC12(e *Env) {
 					return
 				}
 				x := e.refEval(op)
+				if op.Fn == "new" && op.Shared && validCount64(op.N) && p.failing {
+					// what such a call must return is C06's subject; here the race detector watches
+					// the error path taken by all goroutines at once (panics were handled above)
+					obs.Inc("failing_shared_source_calls")
+					dist.Add(soloKey(*op))
+					continue
+				}
 				if op.Fn == "new" && op.Shared && validCount64(op.N) {
 					need := int(op.N) + int(op.N)/3
 					// exactly-once: the sentence encodes a slice of the bytes delivered to this
